@@ -733,8 +733,20 @@ void GZCompress(StringPiece from, std::string &to, int level) {
   to.clear();
   to.resize(4096);
   GZipWrite writer(level);
-  writer.SetInput(from.data(), from.size());
   writer.SetOutput(&to[0], to.size());
+  // zlib counts the available input in an unsigned int: longer input goes in pieces.
+  const char *data = from.data();
+  std::size_t amount = from.size();
+  for (; amount > GZip::kSizeMax; data += GZip::kSizeMax, amount -= GZip::kSizeMax) {
+    writer.SetInput(data, GZip::kSizeMax);
+    while (writer.AvailInput()) {
+      EnsureOutput(writer, to);
+      writer.Process();
+    }
+    // The code below starts with room for at least kMinOutput bytes.
+    EnsureOutput(writer, to);
+  }
+  writer.SetInput(data, amount);
   while (!writer.EnoughOutput()) {
     EnsureOutput(writer, to);
     writer.Process();
